@@ -394,7 +394,11 @@ impl<N, E, H: BuildHasher + Default> DAG<N, E, H> {
       return Err(Error::CycleDetected);
     }
 
-    // Insert forward edge
+    // Insert forward edge. Check for an existing edge first: `LinkedHashSet::insert` moves an existing element to the
+    // back, which would change the insertion order of the outgoing edges of `src`.
+    if self.node_info[src.0].children.contains(dst) { // If edge already exists short circuit
+      return Ok(false);
+    }
     let mut no_prev_edge = self.node_info[src.0].children.insert(*dst);
     let upper_bound = self.node_info[src.0].topo_order;
     // Insert backward edge
